@@ -123,7 +123,7 @@ impl Property for C11 {
         "case = final store of a C01 history (removals, text protection, complex selectors, milestone interval 0/1/3/100) saved with a .cbor name and loaded again (default config or shrink_to_fit). Oracle: the complete observation with handles (all items, forward views, every reverse lookup) is equal; the raw dump of every reverse index, id map, key->data map, position index and byte->char map is equal entry by entry; the reloaded store passes the C01 self-consistency battery; a battery of searches and queries (find_text, byte/char conversion, positions, segmentation, related_text under 8 operators, find_data, 6 queries) gives identical answers; a second save/load generation yields the same observation (byte identity of the file is not required: id maps are hash maps). Non-trivial = the store has a gap or was text-protected, and has at least one complex selector; distinct = distinct case JSON.".into()
     }
     fn cases(&self, tier: Tier) -> u64 {
-        tier.pick(60_000, 400_000)
+        tier.pick(500_000, 4_000_000)
     }
     fn strategy(&self, tier: Tier) -> BoxedStrategy<Case> {
         let cfg = HistCfg {
